@@ -608,6 +608,143 @@ def stream_resize(c, N, tmp):
 
 
 # ---------------------------------------------------------------------------------------------
+# stream 3b: resize / set in any order on NEW objects (also before any series exists)
+
+
+def stream_ops(c, N, tmp):
+    import rtctools.data.pi as pi
+    import rtctools.data.rtc as rtc
+
+    rng = c.rng
+    cases, lines = [], []
+    for i in range(N):
+        ids = P.gen_ids(rng, 3)
+        st = gen_store(rng, ids, False)
+        while st["dt"] is None:
+            st = gen_store(rng, ids, False)
+        d0 = st["dt"]
+        init = rng.choice(["none", "none", "some members", "all"])
+        if init == "none":
+            st["slots"] = [[] for _ in st["slots"]]
+        elif init == "some members" and len(st["slots"]) > 1:
+            keep = rng.randrange(len(st["slots"]))
+            st["slots"] = [sl if m == keep else [] for m, sl in enumerate(st["slots"])]
+        E = len(st["slots"])
+        folder = os.path.join(tmp, "op%d" % i)
+        os.makedirs(folder)
+        with open(os.path.join(folder, "rtcDataConfig.xml"), "w") as fh:
+            fh.write(ids.config_xml())
+        dc = rtc.DataConfig(folder)
+        ts = P.build_real(pi, dc, folder, "ts", st, ids, False)
+        # reference: value by stamp for every stored series, and the current window
+        ref = {}
+        for m, sl in enumerate(st["slots"]):
+            for e in sl:
+                ref[(m, e["var"])] = dict(zip(st["times"], [float(unfr(x)) for x in e["vals"]]))
+        win = (st["start"], st["stop"])
+        ops, obs, fails = [], [], []
+        nops = rng.randint(2, 6)
+        pattern = rng.choice(["resize-first", "resize-first", "resizes-in-a-row", "any"])
+        for k in range(nops):
+            if (pattern == "resize-first" and k == 0) or (pattern == "resizes-in-a-row" and k < 3):
+                kind = "resize"
+            else:
+                kind = rng.choice(["resize", "set", "set"])
+            n = (win[1] - win[0]) // d0 + 1
+            if kind == "resize":
+                a = rng.choice([0, 1, -1, 2, -2, n - 1, n + 1, -(n + 1)])
+                ns = win[0] + a * d0
+                ne = ns + (rng.choice([1, 2, n, n + 1, rng.randint(1, n + 3)]) - 1) * d0
+                o = {"op": "resize", "ns": ns, "ne": ne}
+                r = call(ts.resize, dtm(ns), dtm(ne))
+                if r[0] == "ok":
+                    win = (ns, ne)
+                    # a value that left the window is gone for good
+                    ref = {key: {t: v for t, v in byt.items() if ns <= t <= ne} for key, byt in ref.items()}
+            else:
+                m = rng.randrange(E)
+                var = rng.randrange(len(ids.names))
+                while True:
+                    vals = gen_vals(rng, n, allow_inf=False)
+                    if not collides(vals, False):
+                        break
+                o = {"op": "set", "m": m, "var": var, "unit": rng.choice(P.UNITS), "vals": [xv(x) for x in vals]}
+                r = call(ts.set, ids.names[var], np.array(vals, dtype=float), unit=o["unit"], ensemble_member=m)
+                if r[0] == "ok":
+                    ref[(m, var)] = dict(zip(range(win[0], win[1] + 1, d0), vals))
+            ops.append(o)
+            if r[0] == "raise":
+                obs.append("raise")
+                fails.append(("%s raised %s on a new object" % (o["op"], r[1]), o))
+                break
+            now = {"start": sec(ts.start_datetime), "stop": sec(ts.end_datetime), "times": [sec(t) for t in ts.times],
+                   "slots": [[{"var": ids.rank[kk], "unit": ts.get_unit(kk, m2), "vals": [xv(x) for x in np.asarray(v, dtype=float)]}
+                              for kk, v in ts.items(m2)] for m2 in range(E)]}
+            obs.append(now)
+            c.hit("ops/" + o["op"] + (" (no series yet)" if o["op"] == "resize" and not ref else ""))
+        # oracle: every stored series holds at each stamp of the current window the value last set for it
+        stamps = list(range(win[0], win[1] + 1, d0))
+
+        def holds(slots):
+            got = {(m2, e["var"]): [float(unfr(x)) for x in e["vals"]] for m2, sl in enumerate(slots) for e in sl}
+            if set(got) != set(ref):
+                return "stored series: %s instead of %s" % (sorted(got), sorted(ref))
+            for key, byt in ref.items():
+                exp = [byt.get(t, NAN) for t in stamps]
+                g = got[key]
+                if len(g) != len(exp) or any((isnan(a) != isnan(b)) or (not isnan(a) and a != b) for a, b in zip(exp, g)):
+                    return {"series": list(key), "expected": exp, "got": g, "window": list(win)}
+            return None
+
+        if obs and obs[-1] != "raise":
+            last = obs[-1]
+            if last["start"] != win[0] or last["stop"] != win[1] or last["times"] != stamps:
+                fails.append(("after a set/resize sequence the time range is not the last window",
+                              {"window": list(win), "start": last["start"], "stop": last["stop"], "times": last["times"]}))
+            bad = holds(last["slots"])
+            if bad:
+                fails.append(("after a set/resize sequence a series does not hold the value last set for each stamp "
+                              "of the current window (NaN if never set)", bad))
+            if ref:
+                def wr():
+                    ts.write()
+                    return P.real_to_store(pi.Timeseries(dc, folder, "ts", binary=False), ids)
+                back = call(wr)
+                if back[0] == "raise":
+                    fails.append(("write/read after a set/resize sequence raised " + back[1], {}))
+                else:
+                    b = back[1]
+                    slots_b = b["slots"] + [[] for _ in range(E - len(b["slots"]))]
+                    bad = "time stamps %s" % b["times"] if b["times"] != stamps else holds(slots_b)
+                    if bad:
+                        fails.append(("write -> read after a set/resize sequence does not reproduce the object", bad))
+        shutil.rmtree(folder, ignore_errors=True)
+        case = {"stream": "pi new object: resize/set sequence", "names": ids.names, "store": st, "ops": ops}
+        cases.append((case, obs, fails))
+        lines.append({"op": "pi_ops", "store": st, "ops": ops})
+        c.count(("ops", init, E, len(st["times"]), tuple(o["op"] for o in ops)))
+        c.hit("ops/initial series: " + init)
+        c.sample(case, limit=1)
+    outs = c.model(lines)
+    for k, (case, obs, fails) in enumerate(cases):
+        for what, detail in fails:
+            c.fail(what, case, detail)
+        if outs is None:
+            continue
+        for mo, ob in zip(outs[k], obs):
+            if mo == "raise" or ob == "raise":
+                if mo != ob:
+                    c.disagree("pi set/resize raise/value", case, mo, ob)
+                    break
+                continue
+            a = P.canon_store({**mo})
+            b = P.canon_store({**mo, **ob})
+            if (a["start"], a["stop"], a["times"], a["slots"]) != (b["start"], b["stop"], b["times"], b["slots"]):
+                c.disagree("pi set/resize sequence", case, mo, ob)
+                break
+
+
+# ---------------------------------------------------------------------------------------------
 
 
 def run(c):
@@ -643,6 +780,7 @@ def run(c):
         stream_roundtrip(c, c.n(120, 4000), tmp)
         stream_reader(c, c.n(160, 5000), tmp)
         stream_resize(c, c.n(100, 3000), tmp)
+        stream_ops(c, c.n(100, 3000), tmp)
         M.stream_rewrite(c, c.n(40, 1200), tmp, gen_store)
         M.stream_csv(c, c.n(80, 3000), tmp)
         M.stream_csv_handwritten(c, c.n(80, 3000), tmp)
